@@ -1,5 +1,7 @@
 package main
 
+import "fmt"
+
 // Path-condition simplification at joins: Or(X∧c, X∧¬c) = X, and edge
 // conditions relative to the merged path condition. Keeps the terms produced
 // for short-circuit booleans (lowered to control flow by go/ssa) readable.
@@ -174,4 +176,39 @@ func (ex *Exec) slAtDecls(quantified bool) string {
 		}
 	}
 	return s
+}
+
+// ConstArray builds the array whose every element is zero. Solvers accept
+// (as const ...) only over values; over uninterpreted constants (null, the
+// empty string, the nil interface) a named array with an axiom is used.
+func (c *Ctx) ConstArray(ks, es string, zero *Term) *Term {
+	as := ArraySort(ks, es)
+	if isValueTerm(zero) {
+		return App("(as const "+as+")", as, zero)
+	}
+	name := "zeroarr." + sanitize(ks) + "." + sanitize(es) + "." + fmt.Sprintf("%x", hashString(zero.String()))
+	if _, ok := c.declared[name]; !ok {
+		c.Const(name, as)
+		i := V("i!za", ks)
+		c.axioms = append(c.axioms, &Term{Op: "forall", Sort: SBool, Bound: []Bound{{"i!za", ks}}, Args: []*Term{Eq(Select(V(name, as), i), zero)}})
+	}
+	return V(name, as)
+}
+
+func isValueTerm(t *Term) bool {
+	if len(t.Args) == 0 {
+		return t.IsLit() || t.Op == "true" || t.Op == "false" || (t.Sort == SReal && t.Op != "")
+	}
+	if len(t.Bound) > 0 {
+		return false
+	}
+	if len(t.Op) > 3 && (t.Op[:3] == "mk_" || t.Op[:3] == "(as") {
+		for _, a := range t.Args {
+			if !isValueTerm(a) {
+				return false
+			}
+		}
+		return true
+	}
+	return false
 }
